@@ -89,6 +89,10 @@ type Ctx struct {
 	distinct   map[uint64]struct{}
 	samples    []interface{}
 	violations []*Violation
+	// violCount counts every call of Violate (also those beyond the stored 20), violBase is its value when the running case
+	// began: Violated() speaks about the running case, so that a known finding met in one case does not end the work of the
+	// cases which follow in the same shard
+	violCount, violBase int
 	maxSamples int
 	outDir     string
 	// harnessErrors panics raised by harness own code: inconclusive, never a violation
@@ -135,6 +139,7 @@ func caseSeed(seed int64, prop string, idx int) int64 {
 
 func (c *Ctx) beginCase(idx int) {
 	c.Case = idx
+	c.violBase = c.violCount
 	cs := caseSeed(c.Seed, c.Prop.ID, idx)
 	c.G = rand.New(rand.NewSource(cs))
 	// the library's global source
@@ -218,6 +223,7 @@ func (c *Ctx) Violate(kind string, detail map[string]interface{}, format string,
 	}
 	v := &Violation{Property: c.Prop.ID, Kind: kind, Message: fmt.Sprintf(format, args...), Tier: c.Tier, Seed: c.Seed,
 		Case: c.Case, Shard: c.Shard, Detail: detail}
+	c.violCount++
 	// keep at most 20 violations per shard, the first ones matter
 	if len(c.violations) < 20 {
 		c.violations = append(c.violations, v)
@@ -232,7 +238,7 @@ func (c *Ctx) Violate(kind string, detail map[string]interface{}, format string,
 	}
 }
 
-func (c *Ctx) Violated() bool { return len(c.violations) > 0 }
+func (c *Ctx) Violated() bool { return c.violCount > c.violBase }
 
 // ---------------------------------------------------------------------------------------------------------------------
 // Paths
